@@ -93,8 +93,10 @@ from .asttypes import (
     LtE,
     MatMult,
     Match,
+    MatchAs,
     MatchMapping,
     MatchSequence,
+    MatchStar,
     MatchClass,
     Mod,
     Module,
@@ -209,8 +211,9 @@ _LOC_FUNCS = {  # quick lookup table for FST.loc
 }  # fmt: skip
 
 _ASTS_LEAF_CLASSDEF      = frozenset([ClassDef])
-_ASTS_LEAF_SCOPE_SYMBOLS = ASTS_LEAF_DEF | ASTS_LEAF_TYPE_PARAM | {Name, arg, AugAssign, Import, ImportFrom, Nonlocal,
-                                                                   Global}  # used in scope_symbols() to optimize walk a tiny bit
+_ASTS_LEAF_SCOPE_SYMBOLS_STR = frozenset([ExceptHandler, MatchAs, MatchStar, MatchMapping])  # bind a name which is an optional str in the node and not a Name
+_ASTS_LEAF_SCOPE_SYMBOLS     = (ASTS_LEAF_DEF | ASTS_LEAF_TYPE_PARAM | _ASTS_LEAF_SCOPE_SYMBOLS_STR
+                                | {Name, arg, AugAssign, Import, ImportFrom, Nonlocal, Global})  # used in scope_symbols() to optimize walk a tiny bit
 
 _ASTS_LEAF_EXPR_CHAIN_OP_OR_CTX = (ASTS_LEAF_EXPR_CHAIN | ASTS_LEAF_EXPR_CONTEXT | ASTS_LEAF_BOOLOP | ASTS_LEAF_OPERATOR
                                    | ASTS_LEAF_UNARYOP | ASTS_LEAF_CMPOP)
@@ -3811,6 +3814,11 @@ class FST:
         **Note:** The order of the nodes in the various dictionaries are the order in which they appear
         **SYNTACTICALLY**, not the order they will be processed in semantically by the interpreter.
 
+        **Note:** Names which are bound by `except ... as name`, `case ... as name`, `case name`, `case [*name]` and
+        `case {**name}` are not nodes but just strings in their `ExceptHandler`, `MatchAs`, `MatchStar` and
+        `MatchMapping` nodes, so for these it is that node which is put to the `store` dictionary (like the `alias` for
+        an import).
+
         **Note:** For `AugAssign` nodes the same node will appear in both the `load` and `store` dictionaries in a
         `full=True` return but only once in the single dictionary returned when `full=False`.
 
@@ -3984,6 +3992,12 @@ class FST:
 
             elif a_cls in ASTS_LEAF_TYPE_PARAM:  # these will only be returned for top-level node so their arg is part of our scope
                 name = a.name
+                syms = syms_store
+
+            elif a_cls in _ASTS_LEAF_SCOPE_SYMBOLS_STR:  # these bind a name which is just a string in the node (or None if not binding anything), `except ... as name`, `case ... as name`, `case name`, `case [*name]`, `case {**name}`
+                if (name := a.rest if a_cls is MatchMapping else a.name) is None:
+                    continue
+
                 syms = syms_store
 
             else:
